@@ -5,7 +5,7 @@
    interpretation).  [fx] is NOT in the Rust code: [fx = false] is the code as it is (the three
    id-class tests of the key fast path forget LexemeId::I64 = 0x0317 > UNQUOTED, DESIGN 7-B);
    [fx = true] adds [&& id != I64] at exactly those three tests.  The correspondence check runs
-   [fx = false].
+   [fx = Tables.fast_path_excludes_i64], generated from the three tests in the source (false today).
 
    State: data (rest of the input), ParseState, parent_ind, token tape (a list, push = snoc).
    Indices are nat.  Every unchecked access / unreachable / debug_assert is an explicit outcome.
@@ -402,8 +402,8 @@ Fixpoint loop (fx opt : bool) (fuel : nat) (s : st) : outcome tape :=
 Definition init (d : bytes) : st := mkst d Key O [].
 Definition parse (fx opt : bool) (d : bytes) : outcome tape := loop fx opt (S (length d)) (init d).
 
-(* the code as it is *)
-Definition parse_opt (d : bytes) : outcome tape := parse false true d.
+(* the code as it is: whether the three id-class tests exclude I64 is read off the source *)
+Definition parse_opt (d : bytes) : outcome tape := parse fast_path_excludes_i64 true d.
 Definition parse_ref (d : bytes) : outcome tape := parse false false d.
 
 (* what C03 observes: the tape, or the fact of rejection *)
